@@ -350,6 +350,15 @@ def _convert_buildable(value: Any,
       for tag in value.__argument_tags__[arg_name]:
         arg_val = tag.new(arg_val)
     args.append(kwarg_to_cst(arg_name, conversion_fn(arg_val)))
+  # Tags on arguments that have no value: `arg=Tag.new()`.
+  for (arg_name, tags) in value.__argument_tags__.items():
+    if tags and arg_name not in value.__arguments__:
+      node = None
+      for tag in sorted(tags, key=repr, reverse=True):
+        node = cst.Call(
+            func=cst.Attribute(value=conversion_fn(tag), attr=cst.Name('new')),
+            args=[] if node is None else [cst.Arg(node)])
+      args.append(kwarg_to_cst(arg_name, node))
   return cst.Call(func=conversion_fn(type(value)), args=args)
 
 
